@@ -71,8 +71,13 @@ def gen_mp_spec(rng, thorough=False):
 	dis = None
 	if rng.random() < .4:
 		dis = {'type': rng.choice(['OP', 'SP', 'TP', 'RP']), 'list': [rng.random() < .35 for _ in range(rng.randint(2, T))]}
+	# the order capacity given PER PRODUCT: a node-level dict that names only the first product, or an attribute of the first product object
+	# (the other products are uncapacitated); decided by a private stream so that the main one is unchanged
+	rngc = random.Random(131 * T + 7 * len(fprods) + len(sup))
+	cap_form = rngc.choice(['node', 'node', 'node-dict-first-product', 'first-product-object']) if len(fprods) >= 2 else 'node'
+	cap_first = rngc.randint(2, 6)
 	return {'suppliers': sup, 'factory': {'label': 9, 'products': fprods, 'slt': rng.choice([0, 1, 2]), 'olt': rng.choice([0, 0, 1]),
-										   'dis': dis, 'cap': rng.choice([None, rng.randint(3, 12), rng.randint(2, 6)])}, 'T': T, 'shared': msrc}
+										   'dis': dis, 'cap': rng.choice([None, rng.randint(3, 12), rng.randint(2, 6)]), 'cap_form': cap_form, 'cap_first': cap_first}, 'T': T, 'shared': msrc}
 
 
 def build_mp(spec):
@@ -126,6 +131,11 @@ def build_mp(spec):
 			po.set_bill_of_materials(raw_material=rm_index, num_needed=num)
 		fobjs.append(po)
 	f.add_products(fobjs)
+	if fac.get('cap_form') == 'node-dict-first-product':
+		f.order_capacity = {fac['products'][0]['index']: fac['cap_first']}
+	elif fac.get('cap_form') == 'first-product-object':
+		f.order_capacity = None
+		fobjs[0].order_capacity = fac['cap_first']
 	for fp, po in zip(fac['products'], fobjs):
 		for old_, new_ in zip(fp.get('bom0', fp['bom']), fp['bom']):
 			if tuple(old_) != tuple(new_):
@@ -229,7 +239,8 @@ def install():
 					last_ip = x['result']; break
 			_rec['oq'].append({'node': node.index, 'period': node.network.period, 'prod': prod, 'oq': res[None][None], 'per_rm': per_rm,
 							   'type': self.type, 'S': self.base_stock_level, 's': self.reorder_point, 'Sup': self.order_up_to_level,
-							   'Q': self.order_quantity, 'cap': order_capacity, 'ip_before_demand': last_ip, 'demand': demand})
+							   'Q': self.order_quantity, 'cap': (node.get_attribute('order_capacity', product=prod) or None), 'cap_passed': order_capacity,
+							   'ip_before_demand': last_ip, 'demand': demand})
 		return res
 
 	sim._raw_materials_to_finished_goods = rm
